@@ -71,7 +71,7 @@ def run_shards(prop, modname, shards, tier, seed, ext, variant, rundir,
     if pending:
         r = seed % len(pending)
         pending = pending[r:] + pending[:r]
-    running, results, crashes, notes = [], {}, [], []
+    running, results, crashes, notes, skipped = [], {}, [], [], []
 
     def launch(job):
         base = os.path.join(rundir, "s%04d" % job.idx)
@@ -144,6 +144,11 @@ def run_shards(prop, modname, shards, tier, seed, ext, variant, rundir,
                 sys.stderr.write("\nharness error in shard %r\n" % (j.shard,))
                 raise SystemExit(2)
             kind = "hang" if timed_out else "crash"
+            if timed_out and pending:
+                notes.append("confirmed hang: %d remaining shard(s) skipped"
+                             % len(pending))
+                skipped.extend(pending)
+                del pending[:]
             crashes.append({
                 "sig": "%s:%s" % (kind, json.dumps(case, sort_keys=True,
                                                    default=repr)[:300]),
@@ -153,6 +158,8 @@ def run_shards(prop, modname, shards, tier, seed, ext, variant, rundir,
                 "record": {"case": case, "shard": j.shard, "rc": rc,
                            "log_tail": tail[-1500:], "kind": kind},
             })
+    if skipped:
+        notes.append("cap: exploration cut short after a confirmed hang")
     return results, crashes, notes
 
 
@@ -202,7 +209,12 @@ def main(argv=None):
     shards = mod.shards(a.tier)
     if a.only:
         shards = [s for s in shards if a.only in repr(s)]
-    timeout = getattr(mod, "TIMEOUT", {}).get(a.tier, 900)
+    # horizon per shard (a shard normally takes seconds to a few minutes); a
+    # shard that exceeds it is re-run once in journal mode and, if it hangs
+    # again, reported as a violation and the remaining shards are skipped
+    cap = 300 if a.tier == "quick" else 2400
+    timeout = min(getattr(mod, "TIMEOUT", {}).get(a.tier, cap), cap)
+    timeout = int(os.environ.get("VERIF_SHARD_TIMEOUT", timeout))
     results, crashes, notes = run_shards(
         prop, modname, shards, a.tier, seed, wext, variant, rundir, timeout,
         a.jobs)
@@ -211,7 +223,7 @@ def main(argv=None):
     states, nontriv = set(), set()
     tot = {"evaluations": 0, "transitions": 0}
     outcomes, extra, samples, viols = {}, {}, [], {}
-    cap_hit, depth = False, None
+    cap_hit, depth = any(n.startswith("cap:") for n in notes), None
     for idx in sorted(results):
         r = results[idx]
         for key, acc in ((".out.states", states), (".out.nontriv", nontriv)):
